@@ -27,6 +27,12 @@ ASSUMPTIONS = ['commands run non-interactively (stdin/stdout are not ttys)', 'th
 REQUIRED_CLASSES = ['init_on_existing', 'up_migrate', 'legacy_csv_present', 'existing_bak', 'existing_bak_gap', 'user_gitignore', 'old_layout', 'new_layout', 'crlf_files']
 
 SETTINGS_BASE = 'year: 2024\ndata_sources:\n  - name: Bank\n    file: data/bank.csv\n    format: "{date:%Y-%m-%d},{description},{amount}"\n'
+# settings as an earlier `tally init` wrote them (commented-out hints for optional keys), with the user's data source filled in
+SETTINGS_STARTER = ('# Tally Settings\nyear: 2024\ntitle: "Spending Analysis 2024"\n\n# Data sources - add your statement files here\ndata_sources:\n  - name: Bank\n    file: data/bank.csv\n'
+                    '    format: "{date:%Y-%m-%d},{description},{amount}"\n  # - name: Checking\n  #   file: data/checking-2024.csv\n\noutput_dir: output\nhtml_filename: spending_summary.html\n\n'
+                    '# Merchant rules file - expression-based categorization\nmerchants_file: config/merchants.rules\n\n# Rule matching mode:\n# rule_mode: first_match\n\n'
+                    '# Views file (optional) - custom spending views\n# Create config/views.rules and uncomment:\n# views_file: config/views.rules\n\n# Home locations (auto-detected if not specified)\n'
+                    '# home_locations:\n#   - WA\n')
 RULES_TXT = '# my rules\n[Netflix]\nmatch: contains("NETFLIX")\ncategory: Subscriptions\nsubcategory: Streaming\ntags: recurring\n'
 CSV_RULES = 'Pattern,Merchant,Category,Subcategory\n# note\nNETFLIX,Netflix,Subscriptions,Streaming\nUBER\\s*EATS,Uber Eats,Food,Delivery\n'
 CSV_EMPTY = 'Pattern,Merchant,Category,Subcategory\n# no rules yet\n'
@@ -35,7 +41,7 @@ DATA_TXT = 'Date,Description,Amount\n2024-01-05,NETFLIX.COM,15.99\n2024-01-07,UB
 
 shape_st = st.fixed_dictionaries({
     'layout': st.sampled_from(['old', 'new']),
-    'settings': st.sampled_from(['plain', 'plain', 'with_rules', 'with_rules_views', 'no_trailing_newline', 'absent']),
+    'settings': st.sampled_from(['plain', 'plain', 'with_rules', 'with_rules_views', 'no_trailing_newline', 'absent', 'starter', 'starter_merchants_hint']),
     'rules': st.sampled_from(['absent', 'present', 'present']),
     'csv': st.sampled_from(['absent', 'rules', 'rules', 'empty']),
     'bak': st.booleans(), 'baks': st.sampled_from([[], [], ['.bak2'], ['.bak3'], ['.bak2', '.bak3'], ['.bak.old'], ['.backup']]), 'views': st.booleans(), 'notes': st.booleans(), 'gitignore': st.sampled_from([None, None, 'node_modules/\n*.pyc\n', '# mine\ndata/\n', 'output/\ndata/\n', '']), 'old_report': st.booleans(), 'data': st.booleans(),
@@ -77,6 +83,10 @@ class Folder:
                 text += 'views_file: config/views.rules\n'
             if s == 'no_trailing_newline':
                 text = text.rstrip('\n')
+            if s == 'starter':
+                text = SETTINGS_STARTER
+            if s == 'starter_merchants_hint':
+                text = SETTINGS_STARTER.replace('merchants_file: config/merchants.rules', '# merchants_file: config/merchants.rules')
             w('config/settings.yaml', text)
         elif shape['rules'] != 'absent' or shape['csv'] != 'absent' or shape['views']:
             os.makedirs(os.path.join(self.base, 'config'), exist_ok=True)
